@@ -400,6 +400,7 @@ def write_evidence(ctx, cfg, violations):
             'answers_special_P_None_flag': st.get('special', 0),
             'answers_panic': st.get('panics', 0),
             'typed_requests_skipped_layout_not_instantiated': st.get('skip', 0),
+            'answers_compared_with_model_only_no_documented_answer': st.get('nospec', 0),
             'model_vs_impl_disagreements': st.get('diff', 0),
             'spec_vs_impl_failures': st.get('spec', 0),
             'known_findings_hit': {k: v[1] for k, v in ctx.known_hits.items()},
